@@ -276,4 +276,178 @@ theorem core_up {ys ye ym yp cs ce A B : Rat} (hmp : ym < yp) (hse : ys < ye)
       have n4 : ¬ (ym < ye ∧ ye ≤ yp ∧ ce < 0) := fun h => by linarith [h.2.1]
       rw [if_neg n1, if_neg n3, if_neg n4]
 
+/-- the per-edge statement for every edge direction -/
+theorem core_edge {ys ye ym yp cs ce A B : Rat} (hmp : ym < yp)
+    (I1 : (yp - ym) * A = cs * (ym - ye) - ce * (ym - ys))
+    (I2 : (yp - ym) * B = cs * (yp - ye) - ce * (yp - ys))
+    (N : NoCross A B cs ce) :
+    incR ys ye yp B - incR ys ye ym A = inR ym yp ys cs - inR ym yp ye ce := by
+  rcases lt_trichotomy ys ye with h | h | h
+  · exact core_up hmp h I1 I2 N
+  · subst h
+    have z : ∀ y X, incR ys ys y X = 0 := by
+      intro y X
+      unfold incR
+      by_cases h1 : ys ≤ y
+      · have : ¬ y < ys := not_lt.mpr h1
+        simp [h1, this]
+      · simp [h1]
+    rw [z, z]
+    unfold inR
+    by_cases hs : ym < ys ∧ ys ≤ yp
+    · have key := core_flat hs.1 hs.2 I1 I2 N
+      by_cases hcs : cs < 0
+      · rw [if_pos ⟨hs.1, hs.2, hcs⟩, if_pos ⟨hs.1, hs.2, key.mp hcs⟩]; rfl
+      · rw [if_neg (fun h => hcs h.2.2), if_neg (fun h => hcs (key.mpr h.2.2))]
+    · rw [if_neg (fun h => hs ⟨h.1, h.2.1⟩), if_neg (fun h => hs ⟨h.1, h.2.1⟩)]
+  · have N' : NoCross (-A) (-B) ce cs := by
+      intro hn
+      apply N
+      obtain ⟨⟨h1, h2⟩, ⟨h3, h4⟩⟩ := hn
+      refine ⟨⟨by nlinarith, fun e => h2 (by rw [e])⟩, ⟨by nlinarith, fun e => h4 e.symm⟩⟩
+    have := core_up (ys := ye) (ye := ys) (cs := ce) (ce := cs) (A := -A) (B := -B) hmp h
+      (by linarith) (by linarith) N'
+    rw [incR_swap, incR_swap] at this
+    omega
+
+/-! ### per edge, in terms of points -/
+
+theorem ptInc_eq_incR (x s e : Pt) : ptInc x s e = incR s.y e.y x.y (cross s e x) := rfl
+
+/-- upward segment `m → p` not meeting the edge `(s, e)` -/
+theorem ptInc_diff {s e m p : Pt} (hmp : m.y < p.y)
+    (hdis : ¬ ∃ x, SegMem x s e ∧ SegMem x m p) :
+    ptInc p s e - ptInc m s e =
+      inR m.y p.y s.y (cross m p s) - inR m.y p.y e.y (cross m p e) := by
+  rw [ptInc_eq_incR, ptInc_eq_incR]
+  apply core_edge hmp
+  · unfold cross; ring
+  · unfold cross; ring
+  · intro hn
+    exact hdis (crossing_point hn.1 hn.2)
+
+/-- horizontal segment not meeting the edge: the increments agree -/
+theorem ptInc_horiz {s e m p : Pt} (hy : m.y = p.y)
+    (hdis : ¬ ∃ x, SegMem x s e ∧ SegMem x m p) : ptInc p s e = ptInc m s e := by
+  have hcs : cross m p s = (p.x - m.x) * (s.y - p.y) := by unfold cross; rw [hy]; ring
+  have hce : cross m p e = (p.x - m.x) * (e.y - p.y) := by unfold cross; rw [hy]; ring
+  have hAB : cross s e m - cross s e p = (e.y - s.y) * (p.x - m.x) := by unfold cross; rw [hy]; ring
+  -- an edge active at this height whose determinants at `m`, `p` are weakly opposite meets the segment
+  have key : ∀ (hact : (s.y - p.y) * (e.y - p.y) ≤ 0) (hne : s.y ≠ e.y),
+      Opp (cross s e m) (cross s e p) → False := by
+    intro hact hne hopp
+    apply hdis
+    apply crossing_point hopp
+    have hd : p.x - m.x ≠ 0 := by
+      intro h0
+      apply hopp.2
+      have : cross s e m - cross s e p = 0 := by rw [hAB, h0]; ring
+      linarith
+    refine ⟨?_, ?_⟩
+    · rw [hcs, hce]
+      have : (p.x - m.x) * (s.y - p.y) * ((p.x - m.x) * (e.y - p.y)) =
+          ((p.x - m.x) * (p.x - m.x)) * ((s.y - p.y) * (e.y - p.y)) := by ring
+      rw [this]
+      exact mul_nonpos_of_nonneg_of_nonpos (mul_self_nonneg _) hact
+    · rw [hcs, hce]
+      intro e'
+      have : (p.x - m.x) * (s.y - e.y) = 0 := by linarith
+      rcases mul_eq_zero.mp this with h | h
+      · exact hd h
+      · exact hne (by linarith)
+  unfold ptInc
+  rw [hy]
+  by_cases h1 : s.y ≤ p.y
+  · rw [if_pos h1, if_pos h1]
+    by_cases h2 : p.y < e.y
+    · rw [if_pos h2, if_pos h2]
+      have hact : (s.y - p.y) * (e.y - p.y) ≤ 0 :=
+        mul_nonpos_of_nonpos_of_nonneg (by linarith) (by linarith)
+      have hne : s.y ≠ e.y := by intro h; linarith
+      by_cases hB : 0 < cross s e p
+      · by_cases hA : 0 < cross s e m
+        · rw [if_pos hB, if_pos hA]
+        · exact (key hact hne (opp1 (not_lt.mp hA) hB)).elim
+      · by_cases hA : 0 < cross s e m
+        · exact (key hact hne (opp2 hA (not_lt.mp hB))).elim
+        · rw [if_neg hB, if_neg hA]
+    · rw [if_neg h2, if_neg h2]
+  · rw [if_neg h1, if_neg h1]
+    by_cases h2 : e.y ≤ p.y
+    · rw [if_pos h2, if_pos h2]
+      have hact : (s.y - p.y) * (e.y - p.y) ≤ 0 :=
+        mul_nonpos_of_nonneg_of_nonpos (by linarith) (by linarith)
+      have hne : s.y ≠ e.y := by intro h; apply h1; linarith
+      by_cases hB : cross s e p < 0
+      · by_cases hA : cross s e m < 0
+        · rw [if_pos hB, if_pos hA]
+        · exact (key hact hne (opp4 (not_lt.mp hA) hB)).elim
+      · by_cases hA : cross s e m < 0
+        · exact (key hact hne (opp3 hA (not_lt.mp hB))).elim
+        · rw [if_neg hB, if_neg hA]
+    · rw [if_neg h2, if_neg h2]
+
+/-! ### along a closed ring -/
+
+/-- the potential differences telescope along a path -/
+theorem sum_potential (φ : Pt → Int) (a : Pt) (l : List Pt) :
+    ((segs (a :: l)).map (fun se => φ se.1 - φ se.2)).sum = φ a - φ ((a :: l).getLast (by simp)) := by
+  induction l generalizing a with
+  | nil => simp [segs]
+  | cons b t ih =>
+    have hs : segs (a :: b :: t) = (a, b) :: segs (b :: t) := rfl
+    rw [hs, List.map_cons, List.sum_cons, ih b, List.getLast_cons_cons]
+    simp only
+    omega
+
+theorem sum_potential_closed (φ : Pt → Int) (ring : List Pt) (hc : ring.head? = ring.getLast?) :
+    ((segs ring).map (fun se => φ se.1 - φ se.2)).sum = 0 := by
+  match ring with
+  | [] => simp [segs]
+  | a :: l =>
+    rw [sum_potential]
+    have h1 : (a :: l).head? = some a := rfl
+    have h2 := List.getLast?_eq_getLast_of_ne_nil (l := a :: l) (by simp)
+    rw [h1, h2] at hc
+    have := Option.some.inj hc
+    rw [← this]; omega
+
+theorem sum_map_sub {α : Type} (l : List α) (f g : α → Int) :
+    (l.map (fun x => f x - g x)).sum = (l.map f).sum - (l.map g).sum := by
+  induction l with
+  | nil => simp
+  | cons a t ih => simp only [List.map_cons, List.sum_cons, ih]; omega
+
+/-- **The specification's winding number is constant along a segment that meets no edge of the
+closed ring.** -/
+theorem windingE_const (ring : List Pt) (hc : ring.head? = ring.getLast?) (m p : Pt)
+    (hdis : ∀ s ∈ segs ring, ¬ ∃ x, SegMem x s.1 s.2 ∧ SegMem x m p) :
+    windingE (EPt.ofPt m) ring = windingE (EPt.ofPt p) ring := by
+  have up : ∀ m p : Pt, m.y < p.y → (∀ s ∈ segs ring, ¬ ∃ x, SegMem x s.1 s.2 ∧ SegMem x m p) →
+      windingE (EPt.ofPt m) ring = windingE (EPt.ofPt p) ring := by
+    intro m p hmp hdis
+    rw [windingE_ofPt, windingE_ofPt]
+    have h0 := sum_potential_closed (fun v => inR m.y p.y v.y (cross m p v)) ring hc
+    have h1 : ((segs ring).map (fun se => ptInc p se.1 se.2 - ptInc m se.1 se.2)).sum = 0 := by
+      rw [← h0]
+      congr 1
+      apply List.map_congr_left
+      intro se hse
+      exact ptInc_diff hmp (hdis se hse)
+    rw [sum_map_sub] at h1
+    omega
+  rcases lt_trichotomy m.y p.y with h | h | h
+  · exact up m p h hdis
+  · rw [windingE_ofPt, windingE_ofPt]
+    congr 1
+    apply List.map_congr_left
+    intro se hse
+    exact (ptInc_horiz h (hdis se hse)).symm
+  · refine (up p m h ?_).symm
+    intro s hs ⟨x, h1, h2⟩
+    exact hdis s hs ⟨x, h1, SegMem_symm h2⟩
+
+example : windingE (EPt.ofPt ⟨1, 1⟩) [⟨0, 0⟩, ⟨4, 0⟩, ⟨0, 4⟩, ⟨0, 0⟩] =
+    windingE (EPt.ofPt ⟨1, 2⟩) [⟨0, 0⟩, ⟨4, 0⟩, ⟨0, 4⟩, ⟨0, 0⟩] := by decide +kernel
+
 end Geo.Proofs.C02Q
